@@ -555,6 +555,9 @@ func extractImports(filename string, content []byte) (importsInput bytes.Buffer)
 	}
 
 	scanner := bufio.NewScanner(bytes.NewReader(content))
+	// a line can be as long as the file. With the default buffer (bufio.MaxScanTokenSize, 64 KiB) Scan gives up at the
+	// first longer line and every import statement behind it would be ignored without any error
+	scanner.Buffer(nil, len(content)+1)
 	scanner.Split(bufio.ScanLines)
 	for scanner.Scan() {
 		if isImportLine(scanner.Bytes()) {
